@@ -251,6 +251,9 @@ def run(ctx):
     synth += [(englib.SYNTH_ASCII[i % 2], englib.gen_ascii_history(rng, length())) for i in range(n_punct)]
     synth += [(englib.SYNTH_ASCII[i % 2], englib.gen_api_history(rng, length())) for i in range(n_punct // 3)]
     stock += [(englib.STOCK[i % 4], englib.gen_ascii_history(rng, length(), stock=True)) for i in range(n_punct // 2)]
+    # round 4: multi-character pops with the caret inside the input (back_syllable after a leftward move)
+    synth += [(englib.SYNTH[i % 2], englib.gen_back_syllable_history(rng, stock=False)) for i in range(n_pat)]
+    stock += [(englib.STOCK[i % 4], englib.gen_back_syllable_history(rng, stock=True)) for i in range(2 * n_pat)]
     ctx.coverage["punct_histories"] = {"punct_keys": n_punct, "api_on_punct_schemas": n_punct // 3,
                                        "key_binder": n_punct, "api_on_key_binder_schemas": n_punct // 3,
                                        "ascii_composer": n_punct, "api_on_ascii_schemas": n_punct // 3,
